@@ -61,8 +61,9 @@ def generate(rng, tier):
                     files.append("stray.txt")
                 # a mandatory file that exists but is empty still makes the directory a package (a leading NUL marks it)
                 empt = set(rng.sample(files, min(len(files), rng.randint(1, 2)))) if (files and rng.random() < 0.25) else set()
-                ents.append("d:%s:%s" % (enc(nm), ",".join(("0 " if f in empt else "") + enc(f) for f in files)))
-        cases.append(Case("db.iter", ents, meta={"nt": len(ents) >= 2 or any(e.startswith("d:") and not all(enc(q) in e for q in REQ) for e in ents)}))
+                # one package in six is reached through a symbolic link to a directory outside the database
+                ents.append("%s:%s:%s" % ("l" if rng.random() < 0.17 else "d", enc(nm), ",".join(("0 " if f in empt else "") + enc(f) for f in files)))
+        cases.append(Case("db.iter", ents, meta={"nt": len(ents) >= 2 or any(e[:2] in ("d:", "l:") and not all(enc(q) in e for q in REQ) for e in ents)}))
     return cases
 
 
